@@ -112,8 +112,10 @@ class Model(HoloPyObject):
         dummy_scatterer = fields['_dummy_scatterer']
         scatterer_parameters = read_map(maps['scatterer'], parameters)
         scatterer = dummy_scatterer.from_parameters(scatterer_parameters)
+        # the saved theory object already carries its fittable parameters
+        # (they are constructor arguments of the theory, not of the model)
         kwargs = {'scatterer': scatterer, 'theory': fields['theory']}
-        for key in ['optics', 'model', 'theory']:
+        for key in ['optics', 'model']:
             kwargs.update(read_map(maps[key], parameters))
         model = cls(**kwargs)
         if model._parameters == parameters:
